@@ -18,6 +18,11 @@ func (t Type) Validate() error {
 		if t.Scalar == nil {
 			return missing()
 		}
+		for _, constraint := range t.Scalar.Constraints {
+			if len(constraint.Args) == 0 {
+				return fmt.Errorf("constraint '%s' without argument", constraint.Op)
+			}
+		}
 	case KindRef:
 		if t.Ref == nil {
 			return missing()
@@ -38,6 +43,9 @@ func (t Type) Validate() error {
 			return fmt.Errorf("enum without values")
 		}
 		for _, member := range t.Enum.Values {
+			if member.Type.Kind != KindScalar {
+				return fmt.Errorf("enum member '%s': the type of a member is a scalar", member.Name)
+			}
 			if err := member.Type.Validate(); err != nil {
 				return err
 			}
